@@ -348,6 +348,8 @@ pub fn run(run: &Run) {
             run.machinery_error("engine cross-check: stateright reports an invariant violation the bfs explorer did not".into());
         }
     }
+    long_programs::<G1>(run);
+    long_programs::<G2>(run);
     if run.fail_count() > 0 {
         // histories already break the property; pairing the reached values adds nothing reliable
         return;
@@ -372,6 +374,57 @@ pub fn run(run: &Run) {
         },
     );
 }
+/// Long histories: one seeded base program of length L over the menu extended with arbitrary (generic) scalars, and
+/// EVERY program that deviates from it in at most one position (each position replaced by each other operation).
+/// Deviation-bounded rather than depth-bounded: the executions are long, the bound is on departures from the base.
+fn long_programs<G: GroupApi>(run: &Run) {
+    let mut ops = menu();
+    for g in mccore::alpha::generic(r(), run.seed, 0x1060, 3) {
+        ops.push(Op::MulAk(g.clone()));
+        ops.push(Op::SetS(g));
+    }
+    let len: usize = run.tier.pick(24, 64);
+    let nops = ops.len();
+    let mut sm = mccore::alpha::SplitMix(run.seed ^ 0x10_60_9);
+    let base: Vec<usize> = (0..len).map(|_| (sm.next() % nops as u64) as usize).collect();
+    // case 0 = the base program; case 1 + pos*(nops) + alt = position `pos` replaced by operation `alt`
+    let ncases = 1 + (len * nops) as u64;
+    let prog = |i: u64| -> Vec<usize> {
+        let mut p = base.clone();
+        if i > 0 {
+            let j = (i - 1) as usize;
+            p[j / nops] = j % nops;
+        }
+        p
+    };
+    let exec = |p: &[usize]| -> Result<u32, Bad> {
+        let mut s = init::<G>();
+        invariant::<G>(&s)?;
+        let mut k = 0;
+        for (pos, &o) in p.iter().enumerate() {
+            match step::<G>(&s, &ops[o]) {
+                None => {} // disabled by the model in this state: skipped
+                Some(rr) => {
+                    s = rr.map_err(|mut e| {
+                        e.msg = format!("at step {} ({}): {}", pos + 1, ops[o].label(), e.msg);
+                        e
+                    })?;
+                    invariant::<G>(&s).map_err(|mut e| {
+                        e.msg = format!("after step {} ({}): {}", pos + 1, ops[o].label(), e.msg);
+                        e
+                    })?;
+                    k += 1;
+                }
+            }
+        }
+        Ok(k)
+    };
+    run.grid(
+        Spec { name: &format!("c16.{}.long-program-deviations", G::NAME), n: ncases, classes: &[], required: &[] },
+        |i| Ok(Tally::new(exec(&prog(i))?, true, 0)),
+        |i| json!({"op": format!("c16.{}.program", G::NAME), "labels": prog(i).iter().map(|&o| ops[o].label()).collect::<Vec<_>>()}),
+    );
+}
 pub fn meta(run: &Run) -> Meta {
     Meta {
         rule: "bfs: register machines (A, B : G ; s : Fr) for G1 and for G2 from (G, O, 1) over 29 operations (add, sub, neg, scalar \
@@ -379,7 +432,8 @@ pub fn meta(run: &Run) -> Meta {
                formats, swap, reset, scalar updates); exact-state de-duplication on all coordinates; in every state: denoted points equal the \
                reference multiples of the tracked discrete logs, is_zero, == in both orders, all three encodings equal those of a fresh \
                value, scalar register equals the model. Then every (reached G1 value) x (reached G2 value) x entry point up to the pairing \
-               depth must give g^(dd'). A non-root state = one distinct non-trivial history (its shortest operation sequence)."
+               depth must give g^(dd'). A non-root state = one distinct non-trivial history (its shortest operation sequence). \
+               Long histories: one seeded base program of length L with arbitrary scalars and EVERY single-position deviation from it."
             .into(),
         engine: "sm9mc-bfs + sm9mc-grid".into(),
         bounds: json!({"depth_G1": run.tier.pick(6, 9), "depth_G2": run.tier.pick(6, 8), "pairing_depth": run.tier.pick(3, 4)}),
@@ -392,6 +446,21 @@ pub fn replay(c: &Value) -> Result<(), Bad> {
     match op {
         "c16.G1.path" => run_path::<G1>(&strs("path")).map(|_| ()),
         "c16.G2.path" => run_path::<G2>(&strs("path")).map(|_| ()),
+        "c16.G1.program" | "c16.G2.program" => {
+            let labels = strs("labels");
+            fn go<G: GroupApi>(labels: &[String]) -> Result<(), Bad> {
+                let mut s = init::<G>();
+                invariant::<G>(&s)?;
+                for l in labels {
+                    if let Some(rr) = step::<G>(&s, &Op::parse(l)) {
+                        s = rr?;
+                        invariant::<G>(&s)?;
+                    }
+                }
+                Ok(())
+            }
+            if op == "c16.G1.program" { go::<G1>(&labels) } else { go::<G2>(&labels) }
+        }
         "c16.pairing" => {
             let a = run_path::<G1>(&strs("pathP"))?;
             let b = run_path::<G2>(&strs("pathQ"))?;
